@@ -164,6 +164,8 @@ def run(ctx):
     from bloqade.shuttle.codegen import taskgen as T
     ctx.rule = ("paths traced from generated kernels (loops, branches, helpers, closures, all argument tuples on which tracing succeeds), "
                 "from the library tweezer kernels with enumerated arguments, and the reversal of each; non-trivial = distinct paths with a switch")
+    from props import c01
+    c01.translated_tracer(ctx, who="C11")
     corpus = [("generated", {"src": s, "args": repr(a)}, r) for s, a, r in tc.traced_corpus(ctx, ctx.pick(250, 3000), p_err=0.05)]
     corpus += [("generated/inexact-coordinates", {"src": s, "args": repr(a), "spec": "inexact"}, r)
                for s, a, r in tc.traced_corpus(ctx, ctx.pick(120, 1000), p_err=0.05, spec=tweezer_prog.harness_spec_inexact())]
